@@ -1,5 +1,6 @@
 import Gv.Proofs.FastaRT
 import Gv.Model.Fmt.Nexus
+import Gv.Proofs.StockholmRT
 /-!
 C02 — every alignment format round-trips losslessly through writer and parser.
 
@@ -128,5 +129,218 @@ theorem roundtrip_nexus_counterexample :
     Spec.Fmt.reprNexus [([97], [69, 78, 68]), ([98], [69, 78, 86])] = true ∧
     Nexus.parse ⟨false, false, false⟩ {} (Nexus.write 0 [([97], [69, 78, 68]), ([98], [69, 78, 86])]) = .error := by
   decide
+
+/-! ## Stockholm -/
+
+section Stockholm
+open Gv.Model.Fmt.Stockholm Gv.Proofs.StockholmRT
+open Gv.Spec.Fmt (reprStockholm)
+
+private theorem st_name_byte : ∀ b : Byte, isPrintable b = true → b ≠ 91 → b ≠ 93 → b ≠ 59 → b ≠ 61 →
+    Stockholm.identChar b = true := by decide
+
+private theorem st_residue_byte : ∀ b : Byte, (isNt b || isSpecial b) = true ∨ (isAa b || isSpecial b) = true →
+    Stockholm.identChar b = true ∧ b ≠ 46 ∧ b ≠ 35 ∧ b ≠ 43 ∧ b ≠ 47 ∧ Stockholm.isDigit b = false ∧
+      Stockholm.upper b ≠ 79 := by decide
+
+private theorem isInt64_false (q : Seq) (hne : q ≠ []) (h : ∀ b ∈ q, Stockholm.isDigit b = false ∧ b ≠ 43) :
+    Stockholm.isInt64 q = false := by
+  unfold Stockholm.isInt64
+  cases q with
+  | nil => exact absurd rfl hne
+  | cons c t =>
+    have hc := h c (by simp)
+    by_cases c45 : c = 45
+    · subst c45
+      cases t with
+      | nil => simp
+      | cons d u =>
+        have hd := (h d (by simp)).1
+        simp [hd]
+    · have c43 : c ≠ 43 := hc.2
+      split
+      rename_i neg ds hm
+      split at hm
+      · rename_i t' he; simp at he; exact absurd he.1 c45
+      · rename_i t' he; simp at he; exact absurd he.1 c43
+      · simp only [Prod.mk.injEq] at hm
+        obtain ⟨hn, hd⟩ := hm
+        subst hn; subst hd
+        simp [hc.1]
+
+private theorem dotsToGaps_id (q : Seq) (h : ∀ b ∈ q, b ≠ 46) : Stockholm.dotsToGaps q = q := by
+  unfold Stockholm.dotsToGaps
+  induction q with
+  | nil => rfl
+  | cons c t ih =>
+    have hc : (c == 46) = false := by simp [h c (by simp)]
+    simp only [List.map_cons, hc, Bool.false_eq_true, if_false]
+    rw [ih (fun b hb => h b (by simp [hb]))]
+
+private theorem upper_eq : Stockholm.upper = Spec.Fmt.upper := rfl
+
+/-- what `reprStockholm` gives row by row -/
+private theorem st_repr_rows (rows : List XRow) (h : reprStockholm rows = true) :
+    rows ≠ [] ∧ (∀ r ∈ rows, RowOk r) ∧
+    (∃ L, 1 ≤ L ∧ ∀ r ∈ rows, r.2.length = L) ∧ distinct (rows.map (·.1)) = true := by
+  simp only [reprStockholm, reprBase, Bool.and_eq_true] at h
+  obtain ⟨⟨⟨⟨hrect, hres⟩, hdist⟩, hnames⟩, hst⟩ := h
+  cases rows with
+  | nil => simp [rectangular] at hrect
+  | cons r0 rs =>
+    simp only [rectangular, Bool.and_eq_true, decide_eq_true_eq, List.all_eq_true, beq_iff_eq] at hrect
+    have hlen : ∀ r ∈ r0 :: rs, r.2.length = r0.2.length := by
+      intro r hr
+      cases hr with
+      | head => rfl
+      | tail _ hr => exact hrect.2 r hr
+    refine ⟨by simp, ?_, ⟨r0.2.length, hrect.1, hlen⟩, hdist⟩
+    intro r hr
+    have hn := (List.all_eq_true.mp hnames) r hr
+    simp only [Bool.and_eq_true, Bool.not_eq_true', List.all_eq_true] at hn
+    have hs := (List.all_eq_true.mp hst) r hr
+    simp only [Bool.and_eq_true, List.all_eq_true, bne_iff_ne, ne_eq] at hs
+    obtain ⟨⟨⟨hdel, hhash⟩, hslash⟩, hkw⟩ := hs
+    have hne : r.1 ≠ [] := by
+      intro e; rw [e] at hn; simp at hn
+    have hresr : ∀ b ∈ r.2, _ := fun b hb => st_residue_byte b (by
+      simp only [residuesOk, Bool.or_eq_true, List.all_eq_true] at hres
+      cases hres with
+      | inl h1 => left; simpa using h1 r hr b hb
+      | inr h1 => right; simpa using h1 r hr b hb)
+    have hq : r.2 ≠ [] := by
+      intro e
+      have := hlen r hr
+      rw [e] at this
+      simp at this
+      omega
+    have hnameRun : Run r.1 := by
+      refine ⟨hne, ?_, by simpa using hhash⟩
+      intro b hb
+      have hd := hdel b hb
+      exact st_name_byte b (hn.2 b hb) hd.1.1.1 hd.1.1.2 hd.1.2 hd.2
+    have hseqRun : Run r.2 := by
+      refine ⟨hq, fun b hb => (hresr b hb).1, ?_⟩
+      cases hr2 : r.2 with
+      | nil => exact absurd hr2 hq
+      | cons x xs =>
+        have := (hresr x (by rw [hr2]; simp)).2.2.1
+        simpa using this
+    refine ⟨hnameRun, ?_, hseqRun, ?_, dotsToGaps_id r.2 (fun b hb => (hresr b hb).2.1)⟩
+    · -- the name is an identifier or a number
+      unfold Stockholm.classify
+      by_cases hi : Stockholm.isInt64 r.1 = true
+      · right; simp [hi]
+      · left
+        have hk : ¬ (r.1.map Stockholm.upper = [83, 84, 79, 67, 75, 72, 79, 76, 77]) := by
+          rw [upper_eq]; exact hkw
+        simp [hi, hk, hslash]
+    · -- the residues are an identifier
+      unfold Stockholm.classify
+      have hi := isInt64_false r.2 hq (fun b hb => ⟨(hresr b hb).2.2.2.2.2.1, (hresr b hb).2.2.2.1⟩)
+      have hk : ¬ (r.2.map Stockholm.upper = [83, 84, 79, 67, 75, 72, 79, 76, 77]) := by
+        intro e
+        have : (79 : Byte) ∈ r.2.map Stockholm.upper := by rw [e]; simp
+        obtain ⟨b, hb, hb2⟩ := List.mem_map.mp this
+        exact (hresr b hb).2.2.2.2.2.2 hb2
+      have hsl : ¬ (r.2 = [47, 47]) := by
+        intro e
+        have : (47 : Byte) ∈ r.2 := by rw [e]; simp
+        exact (hresr 47 this).2.2.2.2.1 rfl
+      simp [hi, hk, hsl]
+
+private def stH1 : Seq := [32, 83, 84, 79, 67, 75, 72, 79, 76, 77, 32, 49, 46, 48, 10, 35, 61, 71, 70, 32, 73, 68, 32, 32, 32, 71, 111, 97, 108, 105, 103, 110, 32, 103, 101, 110, 101, 114, 97, 116, 101, 100, 32, 97, 108, 105, 103, 110, 109, 101, 110, 116, 10]
+private def stH2 : Seq := [32, 49, 46, 48, 10, 35, 61, 71, 70, 32, 73, 68, 32, 32, 32, 71, 111, 97, 108, 105, 103, 110, 32, 103, 101, 110, 101, 114, 97, 116, 101, 100, 32, 97, 108, 105, 103, 110, 109, 101, 110, 116, 10]
+private def stH3 : Seq := [10, 35, 61, 71, 70, 32, 73, 68, 32, 32, 32, 71, 111, 97, 108, 105, 103, 110, 32, 103, 101, 110, 101, 114, 97, 116, 101, 100, 32, 97, 108, 105, 103, 110, 109, 101, 110, 116, 10]
+
+private theorem st_s1 (body : Seq) : Stockholm.scanIW (Stockholm.header ++ body) = (.markup, stH1 ++ body) := by
+  simp [Stockholm.header, stH1, Stockholm.scanIW, Stockholm.scan, Stockholm.isWS, NL, CR, SP, TAB]
+
+private theorem st_s2 (body : Seq) :
+    Stockholm.scanIW (stH1 ++ body) = (.stockholm [83, 84, 79, 67, 75, 72, 79, 76, 77], stH2 ++ body) := by
+  simp [stH1, stH2, Stockholm.scanIW, Stockholm.scan, Stockholm.identFrom, Stockholm.classify,
+    Stockholm.isInt64, Stockholm.isWS, Stockholm.identChar, Stockholm.afterRun, NL, CR, SP, TAB,
+    Stockholm.upper, Stockholm.isDigit]
+
+private theorem st_s3 (body : Seq) :
+    Stockholm.scanIW (stH2 ++ body) = (.ident [49, 46, 48], stH3 ++ body) := by
+  simp [stH2, stH3, Stockholm.scanIW, Stockholm.scan, Stockholm.identFrom, Stockholm.classify,
+    Stockholm.isInt64, Stockholm.isWS, Stockholm.identChar, Stockholm.afterRun, NL, CR, SP, TAB,
+    Stockholm.upper, Stockholm.isDigit]
+
+/-- the blank-line token and the `#=GF` markup line cost two iterations of the main loop -/
+private theorem st_s4 (m : Bool) (k : Nat) (body : Seq) (bag : Bag) :
+    Stockholm.loop m (k + 2) (stH3 ++ body) bag = Stockholm.loop m k body bag := by
+  rw [Stockholm.loop]
+  simp [stH3, Stockholm.scanIW, Stockholm.scan, Stockholm.isWS, NL, CR, SP, TAB]
+  rw [Stockholm.loop]
+  simp [Stockholm.skipMarkup, Stockholm.scanIW, Stockholm.scan, Stockholm.identFrom, Stockholm.classify,
+    Stockholm.isInt64, Stockholm.isWS, Stockholm.identChar, Stockholm.afterRun, NL, CR, SP, TAB,
+    Stockholm.upper, Stockholm.isDigit]
+
+/-- the header lines of the writer, then the rows -/
+private theorem st_parse_header (m e : Bool) (o : POpts) (body : Seq) :
+    Stockholm.parse m e o (Stockholm.header ++ body) =
+      match Stockholm.loop m (body.length + 39) body { ignore := normIgnore o.ignore } with
+      | .ok bag =>
+        if (e && bag.rows.isEmpty) || bag.length == 0 then .error
+        else match bag.finish (normAlphabet o.alphabet) with
+          | none => .error
+          | some a => .ok a
+      | .error => .error
+      | .exit => .exit
+      | .panic => .panic
+      | .hang => .hang := by
+  have hl : (stH3 ++ body).length + 2 = (body.length + 39) + 2 := by
+    rw [List.length_append]
+    have : stH3.length = 39 := by decide
+    omega
+  unfold Stockholm.parse
+  rw [st_s1]; simp only
+  rw [st_s2]; simp only
+  rw [st_s3]; simp only [Stockholm.lit, bne_self_eq_false, Bool.false_eq_true, if_false]
+  rw [hl, st_s4]
+  rfl
+
+/-- **Stockholm round trip**, for the code as it is and for every combination of the proposed guards
+(`m`, `e`), every duplicate-name policy, auto-detected alphabet: parsing the writer's output gives back
+the same names in the same order, the same residues, the same length and the detected alphabet. -/
+theorem roundtrip_stockholm (m e : Bool) (o : POpts) (ho : normAlphabet o.alphabet = 2)
+    (rows : List XRow) (h : reprStockholm rows = true) :
+    ∃ L : Nat, 1 ≤ L ∧ (∀ r ∈ rows, r.2.length = L) ∧
+      Stockholm.parse m e o (Stockholm.write rows) = .ok ⟨autoAlphabet (rows.map (·.2)), L, rows⟩ := by
+  obtain ⟨hne, hok, ⟨L, hL1, hlen⟩, hdist⟩ := st_repr_rows rows h
+  refine ⟨L, hL1, hlen, ?_⟩
+  unfold Stockholm.write
+  rw [List.append_assoc, st_parse_header]
+  -- the loop over the rows and the end marker, with exactly the fuel it needs, then with the fuel it has
+  have hmin : Stockholm.loop m (1 + 2 * rows.length) (rows.flatMap line ++ [47, 47])
+      { ignore := normIgnore o.ignore } = .ok { ignore := normIgnore o.ignore, length := L, rows := rows } := by
+    rw [loop_rows m rows hok 1 [47, 47]]
+    have := addAll_ok L rows { ignore := normIgnore o.ignore } hlen (Or.inl ⟨rfl, rfl⟩)
+      (by intro _ _ q hq; simp at hq) hdist
+    rw [this]
+    simp only
+    rw [loop_end m 0]
+    cases rows with
+    | nil => exact absurd rfl hne
+    | cons _ _ => simp
+  have hlenb := flatMap_line_length rows
+  have hfl : (fun (r : XRow) => r.1 ++ [TAB] ++ r.2 ++ [NL]) = line := rfl
+  rw [hfl]
+  have hbig := loop_mono_le m _ ((rows.flatMap line ++ [47, 47]).length + 39)
+    (by rw [List.length_append]; simp only [List.length_cons, List.length_nil]; omega) _ _ _ hmin (by simp)
+  rw [hbig]
+  have hnotempty : rows.isEmpty = false := by
+    cases rows with
+    | nil => exact absurd rfl hne
+    | cons _ _ => rfl
+  have hL0 : ((L : Int) == 0) = false := by
+    have : (L : Int) ≠ 0 := by omega
+    simpa using this
+  simp only [hnotempty, Bool.and_false, hL0, Bool.or_false, Bool.false_eq_true, if_false]
+  simp [Bag.finish, ho, BOTH, Bag.detect, autoAlphabet]
+
+end Stockholm
 
 end Gv.Props.C02
